@@ -28,6 +28,7 @@ type Binder struct {
 }
 
 type Clause struct {
+	Anchor string  // ghost_at: instruction anchor
 	Like   string  // assigns like <contract>(args): name of the contract whose footprint is meant
 	Cond   *Clause // ghost updates: optional `when` condition
 	Target *Clause // ghost updates: the ghost variable (as an expression clause)
@@ -72,6 +73,8 @@ type Contract struct {
 	Except   map[string]map[string]bool // include X except labels
 	GEntry   []*Clause // ghost updates at entry: Label = ghost variable expression text
 	GReturn  []*Clause // ghost updates at return (Cond optional)
+	GAt      []*Clause // ghost updates right after an anchored instruction
+	Asserts  []*Clause // assert_at clauses
 	Parent   *Contract // callee contracts: the contract of the enclosing function
 	File     string
 	Line     int
@@ -116,7 +119,7 @@ type PkgContracts struct {
 	clauseSeq int
 }
 
-var kwRe = regexp.MustCompile(`^(import|pure|rec|opaque|abstract|virtual|ghostfun|specmethod|method|callee|closure|ghost_entry|ghost_return|include|kindprops|func|assume|interface|functype|captures|axiom|globalinv|requires|ensures|assigns|decreases|loop|invariant|lemma|props|ghost|let|flag|refines|var)\b`)
+var kwRe = regexp.MustCompile(`^(import|pure|rec|opaque|abstract|virtual|ghostfun|specmethod|method|callee|closure|ghost_entry|ghost_return|ghost_at|assert_at|include|kindprops|func|assume|interface|functype|captures|axiom|globalinv|requires|ensures|assigns|decreases|loop|invariant|lemma|props|ghost|let|flag|refines|var)\b`)
 
 func parseContractFile(path, pkgPath string) (*PkgContracts, error) {
 	b, err := os.ReadFile(path)
@@ -405,9 +408,31 @@ func parseContractFile(path, pkgPath string) (*PkgContracts, error) {
 					pc.KindProps[kv[0]] = append(pc.KindProps[kv[0]], strings.Split(kv[1], ",")...)
 				}
 			}
-		case "ghost_entry", "ghost_return":
+		case "assert_at":
+			// assert_at <anchor> EXPR : an intermediate assertion (checked, then assumed) right after the
+			// anchored instruction (or at `entry`): a proof hint, like an assert statement in the code
+			sp := strings.IndexAny(rest, " \t")
+			if sp < 0 {
+				return nil, fmt.Errorf("%s:%d: assert_at needs an anchor", path, l.line)
+			}
+			anchor := rest[:sp]
+			rest = strings.TrimSpace(rest[sp:])
+			cl := mkClause("assertat")
+			cl.Anchor = anchor
+			cur.Asserts = append(cur.Asserts, cl)
+		case "ghost_entry", "ghost_return", "ghost_at":
 			// ghost_entry NAME = EXPR        ghost_return [when COND ::] NAME = EXPR
+			// ghost_at <anchor> [when COND ::] NAME = EXPR     (anchor: append#1, call#2, ... — right after that instruction)
 			r := rest
+			anchor := ""
+			if kw == "ghost_at" {
+				sp := strings.IndexAny(r, " \t")
+				if sp < 0 {
+					return nil, fmt.Errorf("%s:%d: ghost_at needs an anchor", path, l.line)
+				}
+				anchor = r[:sp]
+				r = strings.TrimSpace(r[sp:])
+			}
 			var cond *Clause
 			if strings.HasPrefix(r, "when ") {
 				dc := indexTopLevel(r, "::")
@@ -423,8 +448,11 @@ func parseContractFile(path, pkgPath string) (*PkgContracts, error) {
 			}
 			cl := &Clause{Kind: "gupdate", Label: strings.TrimSpace(r[:eqi]), Text: strings.TrimSpace(r[eqi+3:]), File: path, Line: l.line, Owner: cur, Cond: cond}
 			cl.Target = &Clause{Kind: "gtarget", Text: cl.Label, File: path, Line: l.line, Owner: cur}
+			cl.Anchor = anchor
 			if kw == "ghost_entry" {
 				cur.GEntry = append(cur.GEntry, cl)
+			} else if kw == "ghost_at" {
+				cur.GAt = append(cur.GAt, cl)
 			} else {
 				cur.GReturn = append(cur.GReturn, cl)
 			}
@@ -885,6 +913,18 @@ func binderList(bs []Binder) string {
 	return strings.Join(parts, ", ")
 }
 
+// emitClauseNoResults: like emitClause; with noResults the result binders are not in scope (mid-function clauses)
+func (pc *PkgContracts) emitClauseNoResults(c *Contract, cl *Clause, noResults bool) {
+	if !noResults {
+		pc.emitClause(c, cl, nil)
+		return
+	}
+	saved := c.Results
+	c.Results = nil
+	pc.emitClause(c, cl, nil)
+	c.Results = saved
+}
+
 func (pc *PkgContracts) emitClause(c *Contract, cl *Clause, extra []Binder) {
 	pc.clauseSeq++
 	cl.FnName = fmt.Sprintf("zzc_%d", pc.clauseSeq)
@@ -978,11 +1018,14 @@ func (pc *PkgContracts) generate() {
 			pc.emitClause(c, cl, nil)
 			pc.emitClause(c, cl.Target, nil)
 		}
-		for _, cl := range c.GReturn {
-			pc.emitClause(c, cl, nil)
-			pc.emitClause(c, cl.Target, nil)
+		for _, cl := range c.Asserts {
+			pc.emitClauseNoResults(c, cl, true)
+		}
+		for _, cl := range append(append([]*Clause{}, c.GReturn...), c.GAt...) {
+			pc.emitClauseNoResults(c, cl, cl.Anchor != "")
+			pc.emitClauseNoResults(c, cl.Target, cl.Anchor != "")
 			if cl.Cond != nil {
-				pc.emitClause(c, cl.Cond, nil)
+				pc.emitClauseNoResults(c, cl.Cond, cl.Anchor != "")
 			}
 		}
 		var ns []int
